@@ -28,9 +28,11 @@ import os
 import random
 import select
 import signal
+import sys
 import threading
 import time
 import traceback
+import warnings
 
 import networkx as nx
 
@@ -292,7 +294,13 @@ _GENS = {"shapes": _gen_shapes, "decorated": _gen_decorated, "random": _gen_rand
 # precompute with a watchdog thread (CPU seconds / wall seconds / resident memory of the call): a broken precompute may
 # loop forever while allocating (e.g. `while remaining:` in enrich when the components are wrong), which must become a
 # reported failure, not a hung or swapped-out check.  After such a kill the parent restarts the worker behind the case.
-HANG_CPU_S, HANG_WALL_S, HANG_RSS_BYTES, MAX_HANGS = 4.0, 60.0, 256 << 20, 3  # MAX_HANGS: restarts per run() over all spaces
+# A call of precompute on <= 16 tasks takes milliseconds and allocates kilobytes.  The limits are deliberately huge: on a
+# loaded (virtual) machine whole-process stalls of 3-5 s, accounted as CPU time, were observed on correct code.
+HANG_RSS_BYTES = 256 << 20            # resident memory gained during ONE call (independent of machine load)
+HANG_CPU_S, HANG_CPUWALL_S = 15.0, 30.0  # ... or this much CPU and wall time in one call
+HANG_WALL_S = 150.0                   # ... or this much wall time (deadlock)
+MAX_HANGS = 3                         # memory-type hangs tolerated (worker restarted behind the case) per run(); then, or after
+                                      # any other kind of hang, the remaining spaces are skipped
 CL_TERM = "The pre-computed schedule partitions the job's tasks into exactly its weakly connected components (no schedule was produced at all)"
 
 
@@ -394,13 +402,23 @@ def _child(spec, residue, nproc, skip, deadline, wfd):
                 continue
             k, case, acc, cpu0, wall0, rss0 = st
             cpu, wall, mem = time.process_time() - cpu0, time.time() - wall0, _rss() - rss0
-            if cpu > HANG_CPU_S or wall > HANG_WALL_S or mem > HANG_RSS_BYTES:
+            if mem > HANG_RSS_BYTES or (cpu > HANG_CPU_S and wall > HANG_CPUWALL_S) or wall > HANG_WALL_S:
                 if current[0] is not st:
                     continue  # the call returned meanwhile
                 lock.acquire()  # never released: the process ends here
                 d = acc.dump()
-                d["hang"] = [k, case, "precompute did not return: %.1f s CPU, %.1f s wall, +%d MB resident when stopped"
-                             % (cpu, wall, mem >> 20)]
+                where = []
+                try:
+                    me = threading.get_ident()
+                    for tid, fr in sys._current_frames().items():
+                        if tid != me:
+                            fs = traceback.extract_stack(fr)[-3:]
+                            where.append(" < ".join("%s:%d %s" % (os.path.basename(x.filename), x.lineno, x.name) for x in reversed(fs)))
+                except Exception:  # noqa
+                    pass
+                d["hang_slow"] = not mem > HANG_RSS_BYTES
+                d["hang"] = [k, case, "precompute did not return: %.1f s CPU, %.1f s wall, +%d MB resident when stopped; threads at: %s"
+                             % (cpu, wall, mem >> 20, " | ".join(where))]
                 try:
                     send(d)
                 finally:
@@ -427,17 +445,28 @@ def _run_space(out, spec, name, driver, bound, deadline, nproc, state):
     t0 = time.time()
     total = _Acc()
     notes = []
+    if state.get("abort"):
+        out.add_bounded(name, driver, bound + " -- SKIPPED: precompute did not terminate in an earlier space of this run", 0, 0, 0.0, [], [])
+        return
     todo = [(r, 0) for r in range(nproc)]
     live = {}  # rfd -> [pid, residue, bytearray]
     inline = False
     while todo or live:
         while todo:
             residue, skip = todo.pop()
+            fds = ()
             try:
-                rfd, wfd = os.pipe()
-                pid = os.fork()
+                fds = os.pipe()
+                rfd, wfd = fds
+                with warnings.catch_warnings():
+                    warnings.simplefilter("ignore")  # 3.12 warns about fork() when the host process has other threads
+                    pid = os.fork()
             except OSError as e:
-                notes.append("fork failed (%r): remaining cases run in-process without the non-termination guard" % (e,))
+                for fd in fds:
+                    os.close(fd)
+                note = "fork failed (%r): cases run in-process without the non-termination guard" % (e,)
+                if note not in notes:
+                    notes.append(note)
                 inline = True
                 total.merge(_work(spec, residue, nproc, skip, deadline, lambda k, case, acc: None).dump())
                 continue
@@ -483,11 +512,18 @@ def _run_space(out, spec, name, driver, bound, deadline, nproc, state):
                 k, case, observed = d["hang"]
                 state["hangs"] = state.get("hangs", 0) + 1
                 total.fail(k, "C16/precompute-terminates", case, observed, CL_TERM)
-                if state["hangs"] < MAX_HANGS:
+                if d.get("hang_slow"):
+                    state["abort"] = True
+                    total.truncated = True
+                    note = "a call of precompute ran into the time limit: no restart, the remaining spaces are skipped"
+                    if note not in notes:
+                        notes.append(note)
+                elif state["hangs"] < MAX_HANGS:
                     todo.append((residue, k + 1))
                 else:
+                    state["abort"] = True
                     total.truncated = True
-                    note = "workers are not restarted after %d non-terminating cases in this run" % MAX_HANGS
+                    note = "no restart after %d non-terminating cases in this run, the remaining spaces are skipped" % MAX_HANGS
                     if note not in notes:
                         notes.append(note)
     # ---- report
@@ -515,7 +551,7 @@ def run(out, tier, seed):
     import cascade.scheduler.graph  # noqa: F401 -- imported before forking
     thorough = tier == "thorough"
     t_start = time.time()
-    budget = 600.0 if thorough else 45.0
+    budget = 780.0 if thorough else 45.0  # seconds of wall clock after which the spaces stop early (and say so)
     nproc = max(1, min(4, (os.cpu_count() or 1)))
     state = {"hangs": 0}
     lg = logging.getLogger("cascade.scheduler.graph")
@@ -523,24 +559,32 @@ def run(out, tier, seed):
     lg.setLevel(logging.ERROR)  # "coptrs not found" is logged once per component
     try:
         n_shapes = 6 if thorough else 5
-        _run_space(out, ("shapes", n_shapes), "job DAG shapes", "exhaustive enumeration",
+        n_hi = 16 if thorough else 10
+        count = 40000 if thorough else 1500
+        d3_full = (("decorated", 3, True), "multi-edges and multi-output tasks, 3 tasks", "exhaustive enumeration",
+                   "3 tasks, each with 1 or 2 outputs; between every pair i<j zero, one or two edges i->j; every edge picks any "
+                   "output of its source and is positional or keyword (all combinations, as multisets)")
+        spaces = [(("shapes", n_shapes), "job DAG shapes", "exhaustive enumeration",
                    "every DAG on 0..%d single-output tasks: every subset of the pairs i<j taken as edges i->j (all DAGs up to "
                    "renaming), one edge per pair; task names / dict order / edge order / positional-or-keyword varied with the "
-                   "case counter" % n_shapes, t_start + budget * 0.30, nproc, state)
-        _run_space(out, ("decorated", 3, True), "multi-edges and multi-output tasks, 3 tasks", "exhaustive enumeration",
-                   "3 tasks, each with 1 or 2 outputs; between every pair i<j zero, one or two edges i->j; every edge picks any "
-                   "output of its source and is positional or keyword (all combinations, as multisets)",
-                   t_start + budget * (0.40 if thorough else 0.70), nproc, state)
+                   "case counter" % n_shapes, 0.30)]
         if thorough:
-            _run_space(out, ("decorated", 4, False), "multi-edges and multi-output tasks, 4 tasks", "exhaustive enumeration",
-                       "4 tasks, each with 1 or 2 outputs; between every pair i<j zero, one or two edges i->j; every edge picks "
-                       "any output of its source (all combinations, as multisets); positional/keyword alternates",
-                       t_start + budget * 0.85, nproc, state)
-        n_hi = 14 if thorough else 10
-        count = 20000 if thorough else 1500
-        _run_space(out, ("random", seed, count, n_shapes + 1, n_hi), "larger random job DAGs", "seeded random",
-                   "%d jobs from random.Random(seed=%d): %d..%d tasks with 1-2 outputs, edge density 0.08-0.5 over the pairs of a "
-                   "random topological order, 1-3 parallel edges per chosen pair, random output / positional-or-keyword / names / "
-                   "orders" % (count, seed, n_shapes + 1, n_hi), t_start + budget, nproc, state)
+            spaces.append(d3_full + (0.40,))
+            spaces.append((("decorated", 4, False), "multi-edges and multi-output tasks, 4 tasks", "exhaustive enumeration",
+                           "4 tasks, each with 1 or 2 outputs; between every pair i<j zero, one or two edges i->j; every edge picks "
+                           "any output of its source (all combinations, as multisets); positional/keyword alternates", 0.85))
+        else:
+            spaces.append((("decorated", 3, False), "multi-edges and multi-output tasks, 3 tasks, alternating kinds",
+                           "exhaustive enumeration",
+                           "3 tasks, each with 1 or 2 outputs; between every pair i<j zero, one or two edges i->j; every edge picks "
+                           "any output of its source (all combinations, as multisets); positional/keyword alternates", 0.40))
+        spaces.append((("random", seed, count, n_shapes + 1, n_hi), "larger random job DAGs", "seeded random",
+                       "%d jobs from random.Random(seed=%d): %d..%d tasks with 1-2 outputs, edge density 0.08-0.5 over the pairs of a "
+                       "random topological order, 1-3 parallel edges per chosen pair, random output / positional-or-keyword / names / "
+                       "orders" % (count, seed, n_shapes + 1, n_hi), 1.0 if thorough else 0.60))
+        if not thorough:
+            spaces.append(d3_full + (1.0,))  # the big one last: on an overloaded machine it is the one that gets truncated
+        for spec, name, driver, bound, frac in spaces:
+            _run_space(out, spec, name, driver, bound, t_start + budget * frac, nproc, state)
     finally:
         lg.setLevel(old_level)
